@@ -33,7 +33,15 @@ func Flags() int         { return flags }
 func SetPrefix(p string) { prefix = p }
 func Prefix() string     { return prefix }
 
-func output(s string) {
+// Output is log.Output: the line goes to the simulated stderr and the write
+// error, if any, comes back (calldepth only matters for file:line flags,
+// which the simulator does not render).
+func Output(calldepth int, s string) error { return output(s) }
+
+// Writer returns the destination of the standard logger.
+func Writer() *simos.Handle { return simos.HStderr }
+
+func output(s string) error {
 	line := prefix
 	if flags&(Ldate|Ltime) != 0 {
 		line += simos.Stamp()
@@ -42,7 +50,8 @@ func output(s string) {
 	if len(s) == 0 || s[len(s)-1] != '\n' {
 		line += "\n"
 	}
-	simos.HStderr.Write([]byte(line))
+	_, err := simos.HStderr.Write([]byte(line))
+	return err
 }
 
 func Print(v ...any)                 { output(fmt.Sprint(v...)) }
